@@ -335,3 +335,10 @@ def safe_forall(vs, body, patterns=None):
             if good:
                 return z3.ForAll(vs, body, patterns=good)
     return z3.ForAll(vs, body)
+
+
+class ZipV(Val):
+    """zip(a, b) of two heap lists, only as a for-loop iterable"""
+
+    def __init__(self, lists):
+        self.lists = list(lists)
